@@ -254,7 +254,11 @@ func (p c11) Gen(r *simhook.Rand, tier string, idx int) harness.Scenario {
 	}
 	canary := ConnScript{Name: "canary"}
 	for i := 0; i < 3+r.Intn(8); i++ {
-		switch r.Intn(4) {
+		k := r.Intn(4)
+		if sc.Env.Compression != nil && r.Chance(1, 2) {
+			k = 1
+		}
+		switch k {
 		case 1:
 			canary.Reqs = append(canary.Reqs, world.Request{Args: world.Bins("GET", all[r.Intn(len(all))])})
 			canary.Reqs = append(canary.Reqs, world.Request{Args: world.Bins("SETBIT", "junk:"+all[r.Intn(len(all))], "7", "1")})
@@ -285,7 +289,7 @@ func (p c11) Gen(r *simhook.Rand, tier string, idx int) harness.Scenario {
 		sc.Adversaries = append(sc.Adversaries, genClientAdversary(r))
 		sc.Corrupt = append(sc.Corrupt, genCorrupt(r, m))
 	}
-	if sc.Env.Compression != nil && len(sc.Corrupt) > 0 && r.Chance(1, 2) {
+	if sc.Env.Compression != nil && len(sc.Corrupt) > 0 && r.Chance(3, 4) {
 		// aim the corruption at a pipelined canary: the backend connection is torn down by the reader while the
 		// writer still holds requests, one of them answered by the compression filter
 		for i := range sc.Conns[0].Reqs {
